@@ -13,7 +13,10 @@ Ref == Outcome(R.fail, R.t0, R.script)
 SlowCallbackOK == /\ R.res \in {"timeout", "result"}
                   /\ (R.res = "timeout" => Len(R.ext) = 1)
                   /\ (R.res = "result" => Len(R.ext) = 2 /\ R.ext[2] = 2000)
-RecordOK == IF R.judge = "slowcb" THEN SlowCallbackOK ELSE
+\* many concurrent calls on one connection (see runConcurrentEcho): every call has an inbox of its own and is answered
+\* with the response to its own request
+EchoOK == R.wrong = 0 /\ R.shared = 0      \* (a time-out alone, without a shared inbox, says the machine was busy)
+RecordOK == IF R.judge = "slowcb" THEN SlowCallbackOK ELSE IF R.judge = "echo" THEN EchoOK ELSE
             /\ R.res = Ref.res
             /\ R.ext = Ref.ext
             /\ R.released                      \* the inbox subscription was released when SendRequest returned
